@@ -3,6 +3,7 @@ package main
 import (
 	"context"
 	"math/rand"
+	"strings"
 	"time"
 
 	blsu "github.com/protolambda/bls12-381-util"
@@ -160,7 +161,15 @@ func (s *Scen) aggStep(m *aggMsg) *Step {
 		}
 		variant += "outer-sig-prefix2"
 	}
-	return &Step{Topic: "agg", Desc: m.desc, Variant: variant, Cond: cond, Key: keys, Now: m.now, Bad: m.bad,
+	bnd := ""
+	if strings.HasPrefix(m.desc, "honest") {
+		if chain.ForkAtEpoch(sp, m.data.Target.Epoch) < chain.ForkAtEpoch(sp, sp.SlotToEpoch(s.slotAt(m.now))) {
+			bnd = bndPreFork
+		} else if uint64(m.data.Index)+1 == m.cps {
+			bnd = "committee_index=count-1"
+		}
+	}
+	return &Step{Topic: "agg", Desc: m.desc, Variant: variant, Bnd: bnd, Cond: cond, Key: keys, Now: m.now, Bad: m.bad,
 		Run: func(b *Backend) gossipval.GossipValidatorResult {
 			_, res := gossipval.ValidateAggregateAndProof(context.Background(), signed, b)
 			return res
@@ -353,6 +362,21 @@ func (s *Scen) aggHistories(tier string, rng *rand.Rand) []*History {
 		h := s.aggStep(hm)
 		out = append(out, &History{Name: "honest+dup " + fmtSite(site.head.Root, site.slot, "/", site.index, "/", site.pos),
 			Steps: []*Step{h, clone(h)}})
+	}
+	// aggregates dated before the last fork boundary, received after it
+	{
+		var as []attSite
+		for _, c := range csites {
+			as = append(as, attSite{c.head, c.slot, c.index, 0})
+		}
+		for _, st := range s.preForkSites(as, 3) {
+			site, hm, _, _, ok := mk(csite{st.head, st.slot, st.index})
+			if !ok {
+				continue
+			}
+			h := s.aggStep(hm)
+			out = append(out, &History{Name: "pre-fork+dup " + fmtSite(site.head.Root, site.slot, "/", site.index), Steps: []*Step{h, clone(h)}})
+		}
 	}
 	nonSelCovered := false
 	for _, c := range pick(rng, csites, nCorrupt) {
